@@ -94,7 +94,11 @@ class VLoop(base_events.BaseEventLoop):
         self._seq += 1
         heapq.heappush(self._inject, (float(t), j, self._seq, cb))
 
+    dns_yields = 0      # a real loop resolves in an executor: the caller is suspended for some loop iterations
+
     async def getaddrinfo(self, host, port, *, family=0, type=0, proto=0, flags=0):
+        for _ in range(self.dns_yields):
+            await asyncio.sleep(0)
         return socket.getaddrinfo(host, port, family=family, type=type, proto=proto, flags=flags)
 
     def run_to(self, t_end):
